@@ -85,6 +85,13 @@ Lemma alter_ct_fields ct b :
   t_fks t' = t_fks (ct_t ct) /\ t_checks t' = t_checks (ct_t ct).
 Proof. destruct ct as [[t ai] u r]. destruct t. cbn. repeat split; reflexivity. Qed.
 
+Lemma has_col_inspect t n : has_col (mkTable [] false false (map inspect_column (t_cols t)) None [] [] []) n = has_col t n.
+Proof. unfold has_col. cbn [t_cols]. rewrite find_col_inspect. destruct (find_col n (t_cols t)); reflexivity. Qed.
+
+Lemma find_col_app n l1 l2 :
+  find_col n (l1 ++ l2) = match find_col n l1 with Some c => Some c | None => find_col n l2 end.
+Proof. unfold find_col. apply find_app'. Qed.
+
 Lemma inspect_pk_add_cols t l :
   (forall pk, t_pk t = Some pk -> exists names, part_col_names (i_parts pk) = Some names /\
                                   forall n, In n names -> has_col t n = true) ->
@@ -92,25 +99,18 @@ Lemma inspect_pk_add_cols t l :
   inspect_pk (mkTable (t_name t) (t_without_rowid t) (t_strict t) (t_cols t ++ l) (t_pk t) (t_idx t) (t_fks t) (t_checks t))
   = inspect_pk t.
 Proof.
-  intros HP HL. unfold inspect_pk. cbn [t_pk t_cols].
+  intros HP _. unfold inspect_pk. cbn [t_pk t_cols].
   destruct (t_pk t) as [pk|] eqn:E; [|reflexivity].
   destruct (HP pk eq_refl) as [names [EN HN]]. rewrite EN.
-  rewrite filter_app.
-  assert (X : filter (fun c => existsb (str_eqb (c_name c)) names) l = []).
-  { induction l as [|c l IH]; simpl; [reflexivity|].
-    destruct (existsb (str_eqb (c_name c)) names) eqn:Ex.
-    - apply existsb_exists in Ex. destruct Ex as [n [Hn En]]. apply str_eqb_eq in En. subst n.
-      specialize (HL c (or_introl eq_refl)). rewrite (HN _ Hn) in HL. discriminate.
-    - apply IH. intros x Hx. apply HL. right. exact Hx. }
-  rewrite X, app_nil_r. reflexivity.
+  assert (X : forall ns, (forall n, In n ns -> has_col t n = true) ->
+     flat_map (fun n => match find_col n (t_cols t ++ l) with Some c => [c_name c] | None => [] end) ns =
+     flat_map (fun n => match find_col n (t_cols t) with Some c => [c_name c] | None => [] end) ns).
+  { induction ns as [|n ns IH]; intros H; [reflexivity|]. cbn [flat_map].
+    rewrite IH by (intros x Hx; apply H; right; exact Hx). f_equal.
+    specialize (H n (or_introl eq_refl)). unfold has_col in H. rewrite find_col_app.
+    destruct (find_col n (t_cols t)); [reflexivity|discriminate]. }
+  rewrite (X names HN). reflexivity.
 Qed.
-
-Lemma has_col_inspect t n : has_col (mkTable [] false false (map inspect_column (t_cols t)) None [] [] []) n = has_col t n.
-Proof. unfold has_col. cbn [t_cols]. rewrite find_col_inspect. destruct (find_col n (t_cols t)); reflexivity. Qed.
-
-Lemma find_col_app n l1 l2 :
-  find_col n (l1 ++ l2) = match find_col n l1 with Some c => Some c | None => find_col n l2 end.
-Proof. unfold find_col. apply find_app'. Qed.
 
 Lemma kfind_app {A} (key : A -> str) n l1 l2 :
   kfind key n (l1 ++ l2) = match kfind key n l1 with Some c => Some c | None => kfind key n l2 end.
